@@ -17,7 +17,11 @@ import time
 
 from . import core
 
-MARK = "|(x+x+)+y|"
+# two spellings of the marker: as a top-level alternative (whatever literal text surrounds it in the assembled pattern is
+# bypassed - but an alternative that matches the empty string, like a bare '^', then succeeds at once), and plain (the
+# surrounding text stays in force, nothing is bypassed)
+MARKS = ("|(x+x+)+y|", "(x+x+)+y")
+MARK = MARKS[0]
 CORE = "(x+x+)+y"
 PUMPS = (22, 30)
 
@@ -161,6 +165,15 @@ def documents():
             JsonDoc("modules", "productmd.modules.Modules", samples.modules(1).dumps()),
             JsonDoc("extra_files", "productmd.extra_files.ExtraFiles", samples.extra_files(1).dumps()),
             LineDoc("discinfo", "productmd.discinfo.DiscInfo", samples.discinfo(1).dumps())]
+    # a pre-1.0 composeinfo: children are related to their parents by UID prefix only, 'release' is called 'product'
+    legacy = json.loads(samples.composeinfo(1).dumps())
+    legacy["header"] = {"version": "0.3"}
+    legacy["payload"]["product"] = legacy["payload"].pop("release")
+    for v in legacy["payload"]["variants"].values():
+        v.pop("variants", None)
+        if "release" in v:
+            v["product"] = v.pop("release")
+    docs.append(JsonDoc("composeinfo (0.3)", "productmd.composeinfo.ComposeInfo", json.dumps(legacy)))
     # the 0.3 rpm manifest: package names as keys
     from . import rpms_adapter
     docs.append(JsonDoc("rpms 0.3", "productmd.rpms.Rpms", rpms_adapter.doc03_text(
@@ -271,7 +284,7 @@ def evaluate(cap=2.0, docs=None):
         for doc in (docs or documents()):
             stats["documents"] += 1
             positions = doc.positions()
-            for pos in positions:
+            for pos, MARK in ((p_, m_) for p_ in positions for m_ in MARKS):
                 stats["positions"] += 1
                 key = json.dumps(pos)
                 text = doc.render({key: MARK})
